@@ -80,11 +80,11 @@ FaultVals == {"error", "string", "runtime", "abort"}
 FaultSites == {"h:route", "h:opt", "h:405", "h:404", "h:trace", "h:gnf", "mw:m", "mw:g", "mw:h", "mw:i"}
 ReqsC16 == {Rq(k, n, m, p, "a.com", "", (s :> v)) : k \in {"gserve", "rserve"}, n \in {"r1", "r2"}, m \in {"GET", "POST", "OPTIONS", "TRACE"},
                                                     p \in {"/x", "/v1/x", "/nope/y/z"}, s \in FaultSites, v \in FaultVals}
-           \cup {Rq("gserve", "", m, p, "c.com", "", (s :> "error")) : m \in {"GET", "POST"}, p \in {"/x", "/nope/y/z"}, s \in {"h:route", "h:404", "h:405", "mw:m"}}
+           \cup {Rq("gserve", "", m, p, "c.com", "", (s :> "error")) : m \in {"GET", "POST"}, p \in {"/x", "/nope/y/z"}, s \in {"h:route", "h:404", "h:405", "mw:m", "h:gnf"}}   \* c.com: no router accepts - the GROUP's own not-found handler runs (and panics under h:gnf)
            \cup {Rq(k, n, "GET", p, "a.com", "", <<>>) : k \in {"gserve", "rserve"}, n \in {"r1", "r2"}, p \in {"/x", "/v1/x"}}
 RecHelpers == {[op |-> "rechelper", key |-> k, n |-> c, method |-> me, path |-> p, faults |-> (s :> v)] :
                  k \in {"status", "write", "log", "slog"}, c \in {503}, me \in {"GET", "POST", "OPTIONS", "HEAD"}, p \in {"/x", "/zz"},
-                 s \in {"h:route", "h:404", "h:405", "h:opt", "mw:m", "late:route"}, v \in {"error", "runtime"}}
+                 s \in {"h:route", "h:404", "h:405", "h:opt", "mw:m", "late:route"}, v \in {"error", "runtime", "abort", "wrapabort"}}
 Reqs == IF ReqSel = "C16" THEN ReqsC16 \cup RecHelpers ELSE ReqsC13
 
 \* the request product is printed once (pool line); every case is probed with it
